@@ -193,8 +193,7 @@ Example aes_dec_vectors :
   aes_decrypt_block (tv_key 32) (aes_encrypt_block (tv_key 32) tv_pt) = tv_pt.
 Proof. vm_compute. repeat split; reflexivity. Qed.
 
-(* building blocks of aes_dec_enc that are finite sweeps (the full inverse theorem is not proved;
-   aes_decrypt(aes_encrypt) is covered by the correspondence and the FIPS-197 vectors) *)
+(* building blocks of aes_dec_enc that are finite sweeps (the theorem itself is in AESProofs.v) *)
 Lemma aes_S_inv_S : forallb (fun b => N.eqb (S_inv_box (S_box b)) b) bytes256 = true.
 Proof. vm_compute. reflexivity. Qed.
 Lemma aes_S_S_inv : forallb (fun b => N.eqb (S_box (S_inv_box b)) b) bytes256 = true.
